@@ -99,12 +99,12 @@ func (m *c05Model) gaps() [][2]uint16 {
 }
 
 func genC05(rt *rapid.T) c05Scn {
-	sc := c05Scn{RBuf: rapid.SampledFrom([]int{0, 0, 300000, 200000, 100000, 750000, 1 << 20, 2 << 20, 8 << 20}).Draw(rt, "rbuf")}
+	sc := c05Scn{RBuf: rapid.SampledFrom([]int{0, 0, 300000, 200000, 100000, 750000, 1 << 20, 2 << 20, 8 << 20, 16 << 20, 64 << 20}).Draw(rt, "rbuf")}
 	w := vfWindowFor(sc.RBuf)
 	sc.Cum = genTSN(rt, "cum", w)
 	n := rapid.IntRange(1, 60).Draw(rt, "nops")
 	for i := 0; i < n; i++ {
-		op := c05Op{K: rapid.SampledFrom([]int{0, 0, 0, 1, 2, 3, 4, 4, 5, 5, 6, 7, 8, 8, 9, 10, 10, 11, 11, 12}).Draw(rt, "k")}
+		op := c05Op{K: rapid.SampledFrom([]int{0, 0, 0, 1, 2, 3, 4, 4, 5, 5, 6, 7, 8, 8, 9, 10, 10, 11, 11, 12, 13}).Draw(rt, "k")}
 		switch op.K {
 		case 0:
 			switch rapid.IntRange(0, 3).Draw(rt, "offk") {
@@ -115,6 +115,9 @@ func genC05(rt *rapid.T) c05Scn {
 			default:
 				op.A = rapid.IntRange(1, int(w)).Draw(rt, "a")
 			}
+		case 13: // a position given as a fraction (per mille) of whatever window the library really uses
+			op.A = rapid.SampledFrom([]int{1000, 999, 990, 900, 750, 500, 420, 410, 250}).Draw(rt, "permille")
+			op.B = rapid.IntRange(0, 40).Draw(rt, "back")
 		case 1, 4:
 			op.A = rapid.IntRange(0, 50).Draw(rt, "a")
 			op.B = rapid.IntRange(0, 7).Draw(rt, "b")
@@ -179,6 +182,11 @@ func runC05Model(sc c05Scn) (c vfCase) {
 		if !want {
 			sawDup = true
 		}
+		// gap ack blocks are 16-bit offsets from the cumulative point: a TSN accepted further
+		// away than that cannot be reported truthfully by any SACK
+		if want && tsn-m.cum > 65535 {
+			c.fail("accepted-beyond-sack-range", "step %d: TSN %d accepted %d beyond the cumulative point %d (window %d): no gap ack block can name it", step, tsn, tsn-m.cum, m.cum, m.max)
+		}
 	}
 	for step, op := range sc.Ops {
 		if c.Verdict != "" {
@@ -187,6 +195,8 @@ func runC05Model(sc c05Scn) (c vfCase) {
 		switch op.K {
 		case 0:
 			doPush(step, m.cum+uint32(op.A))
+		case 13:
+			doPush(step, m.cum+uint32(uint64(m.max)*uint64(op.A)/1000)-uint32(op.B))
 		case 1:
 			if t, ok := held(op.A); ok {
 				doPush(step, t)
